@@ -244,6 +244,8 @@ def seek_algebra(tu):
                 for e, ev_, fin in nxt:
                     if fin == "break":
                         paths.append((e, ev_ + ["break"]))
+                    elif fin == "continue":
+                        paths.append((e, ev_))      # the iteration ends here
                 if not states:
                     break
             return [(e, ev_, False) for e, ev_ in states]
@@ -272,6 +274,8 @@ def seek_algebra(tu):
                 return [(env, events, "exit")]
             if k == "BreakStmt":
                 return [(env, events, "break")]
+            if k == "ContinueStmt":
+                return [(env, events, "continue")]
             if k == "CompoundAssignOperator":
                 v = path(s.kids[0])
                 r = ev(s.kids[1], env)
